@@ -245,7 +245,14 @@ class MemFS:
         del self.files[p]
         self.mtime.pop(p, None)
 
-    def copyfile(self, src, dst):
+    def copyfile(self, src, dst, follow_symlinks=True):
+        if not follow_symlinks and src in self.links:
+            # shutil semantics: the link itself is re-created, not its content
+            if dst in self.links or dst in self.files:
+                raise FileExistsError(17, "File exists", dst)
+            self._mut("symlink", dst)
+            self.links[dst] = self.links[src]
+            return dst
         rs = self._res(src)
         if rs not in self.files:
             raise FileNotFoundError(2, "No such file or directory", src)
@@ -489,7 +496,7 @@ class ShutilShim:
 
     def copyfile(self, a, b, **k):
         if self._fs.ismem(a) or self._fs.ismem(b):
-            return self._fs.copyfile(a, b)
+            return self._fs.copyfile(a, b, follow_symlinks=k.get("follow_symlinks", True))
         return self._sh.copyfile(a, b, **k)
 
     copy = copyfile
